@@ -227,7 +227,13 @@ func (s *scriptedIface) VarlinkDispatch(ctx context.Context, c varlink.Call, met
 	if s.hook != nil {
 		s.hook(methodname)
 	}
-	sc := decodeScript(c.In.Parameters)
+	// the parameters as a handler gets them (public API), not through the internal field
+	var rawParams *json.RawMessage
+	var raw json.RawMessage
+	if c.GetParameters(&raw) == nil {
+		rawParams = &raw
+	}
+	sc := decodeScript(rawParams)
 	inv := invocation{iface: s.name, method: methodname}
 	for _, a := range sc.acts {
 		var err error
